@@ -57,7 +57,7 @@ def main(ctx):
     ctx.harness(["replay", "C05", "--cases", sc, "--out", res2, "--opt", "stress=%d" % (400000 if thorough else 200000),
                  "--opt", "stressrounds=%d" % (6 if thorough else 2)], timeout=1500)
     ctx.add_results(res2)
-    for k in ("stress/w2", "stress/w16"):
+    for k in ("stress/w2", "stress/w16", "multifile"):
         ctx.expect_vacuity("ungated stress " + k, ctx.classes.get(k, 0))
 
     evs = command_events(ctx, thorough)
